@@ -228,6 +228,21 @@ Fixpoint prun (w : world) (p : pstate) (h : list plabel) : option pstate :=
   | l :: t => match pstep w p l with Some p' => prun w p' t | None => None end
   end.
 
+(** The number of steps of a history at which Stop's critical section ran on rerunner [rid] (read off the
+    reactive side, as the hook stop.mark would report it). *)
+Definition is_xstop (o : option rxev) : bool := match o with Some (XStop _) => true | _ => false end.
+
+Fixpoint stop_count (w : world) (p : pstate) (h : list plabel) (rid : nat) : nat :=
+  match h with
+  | [] => 0
+  | l :: t =>
+      match pstep w p l with
+      | None => 0
+      | Some p' =>
+          (if is_xstop (rx_ev (RR.getr (snd p) rid) (RR.getr (snd p') rid)) then 1 else 0) + stop_count w p' t rid
+      end
+  end.
+
 Definition preachable (w : world) (p : pstate) : Prop := exists h, prun w (pinit w) h = Some p.
 
 (** Results of mutations that histories carry in their labels are well-formed JSON objects (what Execute
